@@ -273,6 +273,16 @@ def tlc_export(spec, cfg, tag="REPLAY", workers=1, timeout=1800, extra=(), env=N
     return out, r
 
 
+def byteview_json(r):
+    """One NDJSON line in which every string is the latin-1 view of its UTF-8 bytes: inside TLC one
+    character = one byte, so Len/SubSeq agree with the byte offsets the library reports."""
+    s = json.dumps(r, separators=(",", ":"), ensure_ascii=False)
+    if s.isascii():
+        return s
+    s = s.encode("utf-8", "surrogatepass").decode("latin-1")
+    return "".join(c if ord(c) < 128 else "\\u%04x" % ord(c) for c in s)
+
+
 def tlc_validate(spec, cfg, records, shards=None, timeout=1800, env=None, tag="tv"):
     """TV: write `records` as NDJSON shards, run the trace spec on each shard (one JVM, one worker
     each), return (bad, stats) where bad = {record id: [reasons]}.
@@ -288,7 +298,7 @@ def tlc_validate(spec, cfg, records, shards=None, timeout=1800, env=None, tag="t
                 k = r.get("kind", "")
                 if k not in seen_kinds:
                     seen_kinds.add(k)
-                    f.write(json.dumps(r, separators=(",", ":")) + "\n")
+                    f.write(byteview_json(r) + "\n")
     shards = shards or max(1, min(NCPU // 2, (len(records) + 399) // 400))
     d = os.path.join(WORK, "traces", "%s-%d" % (tag, os.getpid()))
     shutil.rmtree(d, ignore_errors=True)
@@ -301,7 +311,7 @@ def tlc_validate(spec, cfg, records, shards=None, timeout=1800, env=None, tag="t
         fn = os.path.join(d, "t%d.ndjson" % k)
         with open(fn, "w") as f:
             for r in part:
-                f.write(json.dumps(r, separators=(",", ":")) + "\n")
+                f.write(byteview_json(r) + "\n")
         files.append((fn, len(part)))
     results = [None] * len(files)
     errs = []
